@@ -5,6 +5,7 @@
 
 #include <string.h>
 #include <ctype.h>
+#include <limits.h>
 
 #include <sys/uio.h>
 
@@ -38,7 +39,7 @@ extern int mpt_data_convert_int8(const int8_t *from, MPT_TYPE(type) type, void *
 	}
 	switch (type) {
 		case 'c':
-			if (!isgraph(val)) return MPT_ERROR(BadValue);
+			if (val < 0 || !isgraph(val)) return MPT_ERROR(BadValue);
 			if (dest) *((char *) dest) = val;
 			return sizeof(char);
 		case 'y':
@@ -190,7 +191,7 @@ extern int mpt_data_convert_int16(const int16_t *from, MPT_TYPE(type) type, void
 	}
 	switch (type) {
 		case 'c':
-			if (!isgraph(val)) return MPT_ERROR(BadValue);
+			if (val < 0 || val > UCHAR_MAX || !isgraph(val)) return MPT_ERROR(BadValue);
 			if (dest) *((char *) dest) = val;
 			return sizeof(char);
 		case 'b': if (val < INT8_MIN || val > INT8_MAX) return MPT_ERROR(BadValue);
@@ -268,7 +269,7 @@ extern int mpt_data_convert_uint16(const uint16_t *from, MPT_TYPE(type) type, vo
 	}
 	switch (type) {
 		case 'c':
-			if (!isgraph(val)) return MPT_ERROR(BadValue);
+			if (val > UCHAR_MAX || !isgraph(val)) return MPT_ERROR(BadValue);
 			if (dest) *((char *) dest) = val;
 			return sizeof(char);
 		case 'b':
@@ -344,7 +345,7 @@ extern int mpt_data_convert_int32(const int32_t *from, MPT_TYPE(type) type, void
 	}
 	switch (type) {
 		case 'c':
-			if (!isgraph(val)) return MPT_ERROR(BadValue);
+			if (val < 0 || val > UCHAR_MAX || !isgraph(val)) return MPT_ERROR(BadValue);
 			if (dest) *((char *) dest) = val;
 			return sizeof(char);
 		case 'b':
@@ -426,7 +427,7 @@ extern int mpt_data_convert_uint32(const uint32_t *from, MPT_TYPE(type) type, vo
 	}
 	switch (type) {
 		case 'c':
-			if (!isgraph(val)) return MPT_ERROR(BadValue);
+			if (val > UCHAR_MAX || !isgraph(val)) return MPT_ERROR(BadValue);
 			if (dest) *((char *) dest) = val;
 			return sizeof(char);
 		case 'b':
@@ -507,7 +508,7 @@ extern int mpt_data_convert_int64(const int64_t *from, MPT_TYPE(type) type, void
 	}
 	switch (type) {
 		case 'c':
-			if (!isgraph(val)) return MPT_ERROR(BadValue);
+			if (val < 0 || val > UCHAR_MAX || !isgraph(val)) return MPT_ERROR(BadValue);
 			if (dest) *((char *) dest) = val;
 			return sizeof(char);
 		case 'b':
@@ -592,7 +593,7 @@ extern int mpt_data_convert_uint64(const uint64_t *from, MPT_TYPE(type) type, vo
 	}
 	switch (type) {
 		case 'c':
-			if (!isgraph(val)) return MPT_ERROR(BadValue);
+			if (val > UCHAR_MAX || !isgraph(val)) return MPT_ERROR(BadValue);
 			if (dest) *((char *) dest) = val;
 			return sizeof(char);
 		case 'b':
